@@ -72,6 +72,7 @@ structure MethodRow where
   hasY : Bool
   minSamples : Nat
   calibFirst : Option Bool     -- `_validate_calibration_params` precedes every validation
+  checksPairLabels : Bool      -- the method's label argument reaches `check_y_valid_values_for_pairs`
 deriving Repr, DecidableEq
 
 def pairsLearners : List String := ["ITML", "MMC", "SDML"]
@@ -106,11 +107,14 @@ def wfMethod (r : MethodRow) : Bool :=
       r.validates && r.viaPrepare && r.usesPreprocessor &&
       (if weaklySupervised r.cls then r.tuples && r.tupleSize == classTupleSize r.cls && r.hasY == (r.cls ∈ pairsLearners)
        else !r.tuples && r.hasY == (r.cls != "Covariance")) &&
-      (if r.cls ∈ pairsLearners then r.calibFirst == some true else true)
+      (if r.cls ∈ pairsLearners then r.calibFirst == some true && r.checksPairLabels else true)
   | "transform" => guarded && dataOk false none false
   | "pair_distance" | "pair_score" | "score_pairs" => guarded && dataOk true (some 2) false
-  | "predict" | "decision_function" | "score" => guarded && dataOk true (classTupleSize r.cls) false
-  | "calibrate_threshold" => guarded && dataOk true (some 2) true && r.viaPrepare && r.calibFirst == some true
+  | "predict" | "decision_function" => guarded && dataOk true (classTupleSize r.cls) false
+  | "score" => guarded && dataOk true (classTupleSize r.cls) false &&
+      (if r.cls ∈ pairsLearners then r.checksPairLabels else true)     -- pairs classifiers score against labels
+  | "calibrate_threshold" => guarded && dataOk true (some 2) true && r.viaPrepare && r.calibFirst == some true &&
+      r.checksPairLabels
   | "get_metric" | "get_mahalanobis_matrix" => guarded && r.guard.contains "components_"
   | "set_threshold" => guarded
   | _ => false
